@@ -2,11 +2,16 @@
 context (transitively), substituted faithfully.
 
 A generated *symbol program* (definitions of all 13 types, uses in type-demanding contexts, in setup / act /
-before-assert / assert / cleanup, phases in any file order) is run through the CLI with --keep.  The reference
-interpreter `vlib/ref/c08_symbols.py` (a transcription of the manual, independent of exactly_lib) decides
-VALIDATION_ERROR vs accepted; for accepted programs it predicts what the probes receive (argv, stdin), what
-`file uK.txt = TEXT-SOURCE` / `dir uK = FILES-SOURCE` leave in the kept sandbox, and what the act process receives.
-On rejection nothing may have run: no marker, no probe record, no sandbox.
+before-assert / assert / cleanup, phases in any file order, possibly written in several pieces) is run through the
+CLI with --keep.  The reference interpreter `vlib/ref/c08_symbols.py` (a transcription of the manual, independent of
+exactly_lib) decides VALIDATION_ERROR vs accepted; for accepted programs it predicts what the probes receive (argv,
+stdin, C08_* environment variables), what `file uK.txt = TEXT-SOURCE` / `dir uK = FILES-SOURCE` leave in the kept
+sandbox, what the shell command lines were, and what the act process receives (command line actor and file
+interpreter actor).  On rejection nothing may have run: no marker, no probe record, no shell output, no sandbox.
+
+Sub-checks: `matrix` (exhaustive: syntactic context x defined type x chain of indirection), `scope` (exhaustive:
+definition phase x use phase x order x file order / split phases; duplicates; builtin names), `programs` (random
+symbol programs with at most one fault).  Defect model KF-C08-1: see check().
 """
 import os
 
@@ -171,7 +176,8 @@ def check(case) -> Verdict:
         labels.append('enum:' + case['tag'].split('/')[0])
     if case.get('fault'):
         labels.append('fault:' + case['fault'])
-    labels.append('act:' + ('none' if case.get('act') is None else case['act']['c']))
+    labels.append('act:' + ('none' if case.get('act') is None else
+                            'probe-file-actor' if c08_render.file_actor(case['act']) else case['act']['c']))
     labels.append('file-order:' + ('canonical' if list(case['order']) == ref.EXEC_ORDER else
                                    'split' if len(case['order']) > len(ref.EXEC_ORDER) else 'permuted'))
     labels.extend(sorted(val.features))
@@ -179,7 +185,7 @@ def check(case) -> Verdict:
     labels.extend(_order_labels(case, val))
     for ctx, found, ok in val.cells:
         labels.append('cell-%s:%s' % ('ok' if ok else 'bad', ctx))
-    if case.get('tag', '').startswith('matrix/') and val.cells:
+    if case.get('tag', '').startswith('matrix') and val.cells:
         ctx, found, ok = val.cells[-1]
         labels.append('matrix:%s:%s:%s' % (ctx, found, 'ok' if ok else 'bad'))
     if val.error:
